@@ -102,6 +102,19 @@ TRANSLATORS.append(("tr_stores", _stores))
 GEN_FILES.append("Gen/StoreFacts.v")
 
 
+def _numtojson():
+    import tr_numtojson
+    text, _ = tr_numtojson.translate(common.REPO, common.PY)
+    common.write_if_changed(os.path.join(common.COQ, "Gen", "NumToJson.v"), text)
+    text, _ = tr_numtojson.translate_canon(common.REPO, common.PY)
+    common.write_if_changed(os.path.join(common.COQ, "Gen", "CanonFacts.v"), text)
+
+
+TRANSLATORS.append(("tr_numtojson", _numtojson))
+GEN_FILES.append("Gen/NumToJson.v")
+GEN_FILES.append("Gen/CanonFacts.v")
+
+
 def run_all():
     out = []
     for name, fn in TRANSLATORS:
